@@ -426,19 +426,20 @@ class ConfigLoader(BaseLoader):
         parent.addSection(type_, name, sectvalue)
 
     def importSchemaComponent(self, pkgname):
-        schema = self.schema
         if not self._private_schema:
-            # replace the schema with an extended schema on the first %import
             self._loader = SchemaLoader(self.schema.registry)
-            schema = ZConfig.info.createDerivedSchema(self.schema)
-            self._private_schema = True
-            self.schema = schema
         url = self._loader.schemaComponentSource(pkgname, '')
-        if schema.hasComponent(url):
+        if self.schema.hasComponent(url):
             return
+        # Extend a copy and adopt it only once the component has been
+        # loaded: a component that cannot be read or parsed must not stay
+        # marked as present (without its types) for later loads.
+        schema = ZConfig.info.createDerivedSchema(self.schema)
         schema.addComponent(url)
         with self.openResource(url) as resource:
             ZConfig.schema.parseComponent(resource, self._loader, schema)
+        self._private_schema = True
+        self.schema = schema
 
     def includeConfiguration(self, section, url, defines):
         try:
